@@ -123,6 +123,7 @@ func main() {
 	localMeter := localMeterFrom(plain[".OnRunStart"], 3, methodsOf, 0)
 	oogOnly := oogOnlySemantic(plain[".HandleOutOfGasPanic"])
 	g := gethFacts(repo)
+	addrConvTotal := addrConversionTotal(repo)
 
 	evmDenomGuard := lookupGuarded(evOf("sendToEvm"), "denom-guard")
 	erc20NulGuard := lookupGuarded(evOf("getErc20Address"), "nul-guard")
@@ -130,8 +131,8 @@ func main() {
 	fmt.Printf("Definition current_guards : panic_guards := {|\n  g_len := %s;\n  g_denom := %s;\n  g_amount := %s;\n  g_evm_denom := %s;\n  g_erc20_nul := %s;\n  g_supply := %s |}.\n",
 		CoqBool(lenGuard), CoqBool(denomGuard), CoqBool(amountGuard), CoqBool(evmDenomGuard), CoqBool(erc20NulGuard), CoqBool(supplyGuard))
 	fmt.Printf("Definition current_facts : facts := {|\n  f_funtoken := funtoken_facts;\n  f_wasm := wasm_facts;\n  f_oracle := oracle_facts;\n  f_guards := current_guards;\n")
-	fmt.Printf("  f_local_meter := %s;\n  f_oog_only := %s;\n  f_direct_ro := %s;\n  f_call_inherits_static := %s |}.\n",
-		CoqBool(localMeter), CoqBool(oogOnly), CoqBool(g.directRO), CoqBool(g.callInherits))
+	fmt.Printf("  f_local_meter := %s;\n  f_oog_only := %s;\n  f_addr_conv_total := %s;\n  f_direct_ro := %s;\n  f_call_inherits_static := %s |}.\n",
+		CoqBool(localMeter), CoqBool(oogOnly), CoqBool(addrConvTotal), CoqBool(g.directRO), CoqBool(g.callInherits))
 	fmt.Printf("(* geth fork %s: read-only argument of RunPrecompiledContract per wrapper; RequiredGas charged before Run *)\n", g.dir)
 	fmt.Printf("Definition geth_readonly_args : list (string * string) := [%s].\n", g.pairs)
 	fmt.Printf("Definition geth_charges_required_gas_first : bool := %s.\n", CoqBool(g.chargesFirst))
@@ -1174,6 +1175,33 @@ func localMeterFrom(fd *ast.FuncDecl, idx int, methodsOf map[string]*ast.FuncDec
 		return true
 	})
 	return found
+}
+
+// addrConversionTotal: eth.NibiruAddrToEthAddr returns gethcommon.BytesToAddress(<bytes>) on every path
+// (total: pads short inputs, keeps the last 20 bytes of long ones); a slice-to-array conversion or
+// anything else it does not recognise gives false.
+func addrConversionTotal(repo string) bool {
+	for _, fl := range ParseDir(repo + "/eth") {
+		for _, d := range fl.F.Decls {
+			fd, ok := d.(*ast.FuncDecl)
+			if !ok || fd.Recv != nil || fd.Name.Name != "NibiruAddrToEthAddr" || fd.Body == nil {
+				continue
+			}
+			n, okAll := 0, true
+			re := regexp.MustCompile(`^\w+\.BytesToAddress\(.+\)$`)
+			ast.Inspect(fd.Body, func(x ast.Node) bool {
+				if r, ok := x.(*ast.ReturnStmt); ok {
+					n++
+					if len(r.Results) != 1 || !re.MatchString(Nospace(r.Results[0])) {
+						okAll = false
+					}
+				}
+				return true
+			})
+			return n > 0 && okAll
+		}
+	}
+	return false
 }
 
 // ---------------------------------------------------------------- go-ethereum fork
